@@ -555,6 +555,28 @@ theorem C14_front_matter_no_modes_diagnostics_agree (env : Env) (input : Str) (f
   rw [front_full_no_modes env input fm h hm r1 h1, front_meta_output_diags env input fm h r2 h2]
   rfl
 
+/-- Summary for EVERY input, with or without front matter: the metadata-only report never says
+    anything about metadata that the full report does not say.  Its parse-stage metadata diagnostics
+    are a sublist of those of the full report (equal without front matter, empty with), and whenever
+    both analyses have output so are its analysis diagnostics about metadata. -/
+theorem C14_metadata_only_diagnostics_included (env : Env) (input : Str) :
+    List.Sublist ((parseMetadata (α := α) env input).diags.toList.filter Diag.isParseMeta)
+      ((parseRecipe (α := α) env input).diags.toList.filter Diag.isParseMeta) ∧
+    ∀ r1 r2 : Col α, (parseRecipe (α := α) env input).output = some r1 →
+      (parseMetadata (α := α) env input).output = some r2 →
+      List.Sublist (r2.diags.toList.filter Diag.isMeta) (r1.diags.toList.filter Diag.isMeta) := by
+  cases h : parseFrontmatter env.cs input with
+  | none =>
+    refine ⟨by rw [report_parse_meta_agree env input h]; exact List.Sublist.refl _, ?_⟩
+    intro r1 r2 h1 h2
+    rw [C14_metadata_diagnostics_agree_partial env input h r1 r2 h1 h2]
+    exact List.Sublist.refl _
+  | some fm =>
+    refine ⟨by rw [(front_meta_report env input fm h).1]; exact List.nil_sublist _, ?_⟩
+    intro r1 r2 h1 h2
+    rw [front_meta_output_diags env input fm h r2 h2]
+    exact List.nil_sublist _
+
 /-! the filters are not trivial -/
 example : Diag.isParseMeta ⟨.warning, .parse, "metadata-invalid", [⟨0, 4⟩]⟩ = true ∧
     Diag.isParseMeta ⟨.error, .parse, "empty-metadata-key", []⟩ = true ∧
@@ -566,7 +588,8 @@ example : Diag.isCfg ⟨.error, .analysis, "config-invalid-value", []⟩ = true 
 
 /-! WHOLE-INPUT examples with a non-empty cooklang text.  `lexFrom` is defined by well-founded
     recursion and does not reduce; `lexFuel` is its structurally recursive twin
-    (`lexFrom_eq_fuel`), which does. -/
+    (`lexFrom_eq_fuel`), which does.  The closed terms are evaluated by the kernel (`decide +kernel`):
+    the elaborator's `rfl`/`decide` needs minutes and gigabytes on them. -/
 
 /-- front matter, then a `[mode]` entry with a bad value and a step; MODES on: both analyses have
     output (the hypotheses of `C14_agree` / `C14_front_matter_diagnostics` hold on an input with a
@@ -586,7 +609,7 @@ example : parseFrontmatter C14_exCs C14_exInput = some ⟨"a: 1\n".toList, 4, ">
   refine ⟨h, ?_, ?_⟩
   · unfold parseRecipe pullEvents
     simp only [C14_exEnv, h, hl]
-    constructor <;> rfl
+    decide +kernel
   · have hd := C14_front_matter_diagnostics (α := Rat) C14_exEnv C14_exInput _ h
     exact ⟨hd.1.2.2, hd.1.1⟩
 
@@ -609,16 +632,16 @@ example : parseFrontmatter C14_exCs C14_exInput2 = none ∧
   refine ⟨h, ?_, ?_, ?_, ?_⟩
   · unfold parseRecipe pullEvents
     simp only [C14_exEnv0, h, hl]
-    decide
+    decide +kernel
   · unfold parseMetadata pullMetaEvents
     simp only [C14_exEnv0, h, hl]
-    decide
+    decide +kernel
   · unfold parseRecipe pullEvents
     simp only [C14_exEnv0, h, hl]
-    rfl
+    decide +kernel
   · unfold parseMetadata pullMetaEvents
     simp only [C14_exEnv0, h, hl]
-    rfl
+    decide +kernel
 
 /-- with front matter the full parser still warns about `>>` lines of the body: the block `>> s:`
     (empty value) run with `old_style_metadata = false` pushes `empty-metadata-value` and then the
